@@ -8,7 +8,8 @@ RULE = ("hx-loop runs the real bench_loop_threaded with sample_size unset under 
         "precision is set through set_precision_override, overheads through set_overhead_override. Streams: (1) threshold-aimed: "
         "round j's slowest sample is exactly 100*p, 101*p-1, 101*p (p = precision) on one thread of 1..3; (2) random "
         "per-iteration costs from far below to far above the precision (constant, growing per round, jittered, per-thread "
-        "skew), sample counts incl. default, per-input counter on/off, overhead subtraction; (3) max_time cutting the tuning "
+        "skew), sample counts incl. default, input-based counters of any subset of the four kinds (bytes, chars, cycles, items) on one "
+        "bencher with their own scripted per-input values, allocations inside the call, overhead subtraction; (3) max_time cutting the tuning "
         "short. Sizes of successive rounds (from the call counters), recorded durations, final size, Stats figures and the "
         "timestamp log are printed; the log drives the extracted model; the extracted c19_sb is evaluated on the "
         "implementation's output. Non-trivial = agreed `ok` line with at least one round; distinct by input line.")
